@@ -181,7 +181,7 @@ def process_histories(path, E, rng, tier, work):
 
     def run(job):
         k, plan, hs = job
-        fn = os.path.join(work, 'proc%d_%d.sav' % (rng_tag, k))
+        fn = os.path.join(work, 'proc%d_%d%s.sav' % (rng_tag, k, ['', 's', 'a', 'v', '.'][k % 5]))
         sess, total = [], 0
         for si, g in enumerate(plan):
             if total >= len(E):
@@ -392,7 +392,8 @@ def quit_histories(path, E, rng, tier, work):
         plans = rng.sample(plans, 40)
     for pi_, plan in enumerate(plans):
         with_limit = (pi_ % 2 == 1)
-        fn = os.path.join(work, 'q.sav')
+        # session names as users choose them, also names that END in one of the letters of the '.sav' suffix
+        fn = os.path.join(work, ['q.sav', 'omega.sav', 'canvas.sav', 'rockyou_vs.sav', 'run..sav', 'levels.sav'][pi_ % 6])
         for f in (fn, fn[:-4] + '.omn'):
             if os.path.exists(f):
                 os.remove(f)
